@@ -41,6 +41,7 @@ func main() {
 		}
 		os.Exit(1)
 	}
+	w.thorough = *tier == "thorough"
 	if *dump != "" {
 		dumpFunc(w, *dump)
 		return
